@@ -91,6 +91,7 @@ def basic_render(
             start = repr(vert)
 
         line += f"{start} -> "
+        nodes = []
 
         if sort:
             nbs = sorted(helpers.neighbors(vert), key=sort)
@@ -101,10 +102,9 @@ def basic_render(
                 node = rfunc(end)
             else:
                 node = repr(end)
-            line += f"{node}, "
+            nodes.append(f"{node}")
 
-        # remove trailing comma & space
-        line = line[:-2]
+        line += ", ".join(nodes)
         lines.append(line)
 
     return "\n".join(lines)
